@@ -1254,7 +1254,7 @@ func (r *run) reencodings(srv, host, name string, ps []param, base ServerObs) {
 		v := vs[i]()
 		o := r.serverRequest(srv, host, v.hdr, candsOf(ps, r.extrasDecoded()...), "re-encoded: "+v.name)
 		r.res.Inc("reencoded_requests", 1)
-		if v.equiv && (o.Accepted != base.Accepted || (o.Accepted && o.Peer != base.Peer)) {
+		if v.equiv && len(v.hdr) <= 2048 /* the code's maxHeaderSize */ && (o.Accepted != base.Accepted || (o.Accepted && o.Peer != base.Peer)) {
 			r.mismatch("L2:reencoding:"+strings.SplitN(v.name, ":", 2)[0], "an equivalent encoding of the request has another outcome: "+o.Detail,
 				map[string]any{"accepted": base.Accepted, "reason": base.Reason}, map[string]any{"accepted": o.Accepted, "reason": o.Reason, "header": v.hdr})
 		}
